@@ -1,5 +1,9 @@
 import FxVerif.Model.C08
+import FxVerif.Model.C08U
 import FxVerif.Proofs.Ledger
+import FxVerif.Proofs.C08Index
+import FxVerif.Proofs.C08Books
+import FxVerif.Proofs.C08Run
 import FxVerif.Gen.C04
 import FxVerif.Gen.C08
 /-!
@@ -336,5 +340,80 @@ theorem toggle_frame (i i' : Idx) (d : Nat) (h : stepIdx i (.toggle d) = .ok i')
   · split at h
     · cases h
     · cases h; exact ⟨rfl, rfl, rfl, rfl⟩
+
+/-! ### I_index, inductively (unified model: every message of the erc20 module, any order, any arguments) -/
+
+open FxVerif.Proofs.C08 in
+/-- the erc20 store at genesis satisfies I_index -/
+theorem index_invariant_genesis : IdxInv genesisIdx := by
+  constructor
+  · intro id p h
+    simp only [genesisIdx, addPair, setKV, lookup] at h ⊢
+    split at h
+    · cases h; rename_i e; subst e; exact ⟨rfl, by simp, by simp⟩
+    · cases h
+  · intro d id h
+    simp only [genesisIdx, addPair, setKV, lookup] at h ⊢
+    split at h
+    · cases h; rename_i e; subst e; exact ⟨_, rfl, rfl⟩
+    · cases h
+  · intro ct id h
+    simp only [genesisIdx, addPair, setKV, lookup] at h ⊢
+    split at h
+    · cases h; rename_i e; subst e; exact ⟨_, rfl, rfl⟩
+    · cases h
+  · intro a d h; simp [genesisIdx, addPair, lookup] at h
+  · intro d as _ hm a ha
+    simp only [genesisIdx, addPair, lookup] at hm
+    split at hm
+    · cases hm; cases ha
+    · cases hm
+  · intro a d h; simp [genesisIdx, addPair, lookup] at h
+
+open FxVerif.Proofs.C08 in
+/-- **I_index is an invariant of the message server**: every message — conversions (including the removal of a pair
+whose contract self-destructed), registrations, toggles, alias updates, parameter updates — keeps "the pair records, the
+denom index, the contract index, the alias index and the bank metadata aliases describe the same set of pairs, and no
+denomination is both a registered base denomination and an alias".  Only environment fact used: the contract deployed
+by `RegisterNativeCoin` has a new address (`UOp.fresh`). -/
+theorem index_invariant_step (s s' : UState) (hi : IdxInv s.idx) (op : UOp) (hf : UOp.fresh s op)
+    (h : stepU s op = .ok s') : IdxInv s'.idx :=
+  inv_stepU s s' hi op hf h
+
+open FxVerif.Proofs.C08 in
+/-- **I_index holds after every sequence of messages from genesis** (induction over the op list; any ledger, any set
+of self-destructed contracts) -/
+theorem index_invariant_from_genesis (L : Ledger) (dead : List Nat) (ops : List UOp)
+    (hf : FreshRun ⟨genesisIdx, L, true, dead⟩ ops) : IdxInv (runU ⟨genesisIdx, L, true, dead⟩ ops).idx :=
+  inv_runU _ index_invariant_genesis ops hf
+
+open FxVerif.Proofs.C08 in
+/-- the freshness hypothesis is satisfiable by a run that registers, converts, updates an alias and toggles -/
+example : FreshRun ⟨genesisIdx, ⟨fun _ _ => 5, fun _ => 5, fun _ => none⟩, true, []⟩
+    [.idx (.registerCoin 1 10 [110]), .convertCoin 1 0 1 3, .idx (.updateAlias 1 111), .idx (.registerCoin 2 11 []),
+     .idx (.toggle 1)] := by
+  refine ⟨?_, trivial, trivial, ?_, trivial, trivial⟩ <;> (simp only [UOp.fresh, IOp.fresh]; decide)
+
+/-! ### I_module over every message (unified model) -/
+
+open FxVerif.Proofs.C08 in
+/-- **I_module is kept by every message of the module**, whatever it operates on: for a registered module-owned pair
+`(d, ct)` the coins escrowed for it (by the module account; by the WFX contract for the native coin) minus the ERC-20
+total supply is unchanged by any `MsgConvertCoin`, `MsgConvertERC20`, `MsgConvertDenom` (of any denomination, towards
+any target — including conversions of other tokens' denominations and of this token's own aliases), registration,
+toggle, alias update and parameter update, in every state that satisfies I_index. -/
+theorem module_book_every_message (s s' : UState) (hi : IdxInv s.idx) (id : PairId) (p : Pair)
+    (hp : lookup id s.idx.pairs = some p) (hext : p.external = false) (op : UOp) (h : stepU s op = .ok s') :
+    (bookM p.denom p.contract (decide (p.denom = 0))).val s'.L = (bookM p.denom p.contract (decide (p.denom = 0))).val s.L :=
+  bookM_stepU s s' hi id p hp hext op h
+
+open FxVerif.Proofs.C08 in
+/-- **I_module along every sequence of messages** (induction): from any state satisfying I_index in which no contract
+has self-destructed, every registered module-owned pair keeps its book through any list of messages -/
+theorem module_books_preserved_all_messages (s : UState) (hi : IdxInv s.idx) (hdead : s.dead = []) (ops : List UOp)
+    (hf : FreshRun s ops) (id : PairId) (p : Pair) (hp : lookup id s.idx.pairs = some p) (hext : p.external = false) :
+    (bookM p.denom p.contract (decide (p.denom = 0))).val (runU s ops).L =
+      (bookM p.denom p.contract (decide (p.denom = 0))).val s.L :=
+  bookM_runU s hi hdead ops hf id p hp hext
 
 end FxVerif.Props.C08
